@@ -129,6 +129,7 @@ func (l *elog) addc(h string, c int, ev, v, id string) {
 	l.last = time.Now()
 	l.mu.Unlock()
 }
+func (l *elog) flooded() bool           { l.mu.Lock(); defer l.mu.Unlock(); return l.flood }
 func (l *elog) quietFor() time.Duration { l.mu.Lock(); defer l.mu.Unlock(); return time.Since(l.last) }
 
 // ---------------------------------------------------------------- TCP proxy in front of a hub
@@ -557,6 +558,9 @@ func runScript(s scriptT) obsT {
 	registered := map[string]bool{}
 	autoOn := map[string]bool{}
 	for _, op := range s.Ops {
+		if l.flooded() {
+			break // a runaway loop (section 8 of DESIGN.md: a queued service that cannot be reached): the scenario is given up
+		}
 		n := eth.nodes[op.H]
 		// the model took this step with a connection registered at the hub (being set up, or completed): give the real hub
 		// the time to get there, then act at once
@@ -668,7 +672,7 @@ func runScript(s scriptT) obsT {
 	// quiescence: no event for 1.5 s and no registered connection in the middle of its handshake (its 10 s / 60 s timers
 	// are armed then and the library will still act)
 	settled := false
-	for round := 0; round < 8 && !settled; round++ {
+	for round := 0; round < 8 && !settled && !l.flooded(); round++ {
 		quiet := settle(l, 1500*time.Millisecond, 15*time.Second)
 		busy := false
 		for name, n := range eth.nodes {
@@ -697,6 +701,15 @@ func runScript(s scriptT) obsT {
 	}
 	// settled = false: the pair never came to rest within the budget (a loaded machine, or a library that keeps acting);
 	// such an observation is not a quiescent state and the monitor does not judge it as one
+	if l.flooded() {
+		for name, n := range eth.nodes {
+			if !shut[name] {
+				n.h.Shutdown()
+				shut[name] = true
+			}
+		}
+		time.Sleep(300 * time.Millisecond)
+	}
 	l.add("", "Quiesced", vh.B(settled))
 	o := obsT{ID: s.ID, Script: s, Settled: settled, Hubs: map[string]hubObs{}, ShutDown: shut, Sent: map[string][]string{},
 		UserReg: map[string]bool{"A": registered["A"], "B": registered["B"]}, AutoOn: map[string]bool{"A": autoOn["A"], "B": autoOn["B"]}}
@@ -802,6 +815,9 @@ func runScript(s scriptT) obsT {
 func settle(l *elog, quiet, max time.Duration) bool {
 	deadline := time.Now().Add(max)
 	for time.Now().Before(deadline) {
+		if l.flooded() {
+			return false
+		}
 		if l.quietFor() >= quiet {
 			return true
 		}
@@ -839,5 +855,8 @@ func main() {
 	t0 := time.Now()
 	vh.Pool(len(scripts), *par, func(i int) { out.Write(runScript(scripts[i])) })
 	out.Close()
+	if fds, err := os.ReadDir("/proc/self/fd"); err == nil && os.Getenv("VERIF_FDS") != "" {
+		fmt.Printf("open file descriptors at the end: %d\n", len(fds))
+	}
 	fmt.Printf("hub2: %d scenarios on pairs of real hubs, %.1fs\n", len(scripts), time.Since(t0).Seconds())
 }
